@@ -28,14 +28,16 @@ TOL = 1e-12
 RULE = (
     "One run = one seeded history of 3..25 public operations on one GMMMachine (ML or MAP, 1..4 "
     "components x 1..4 features): assign weights / means / variances / variance floors (scalar, "
-    "per-feature, per-component-and-feature; raised and lowered) in any order, one EM step with "
-    "any update switches on NumPy data or on a Dask array under a random executor model, and "
-    "restart events (deepcopy, pickle round trip, HDF5 save->from_hdf5 by path or open file, "
-    "HDF5 save->load into a machine of another shape) after which the restarted object replaces "
-    "the live one. After every operation: likelihoods and statistics on a probe batch equal "
-    "those of a fresh machine built from the visible parameters (1e-12), variances >= floors. "
-    "Non-trivial = history contains at least one restart or EM step; distinct = distinct case "
-    "digest + event-log digest."
+    "per-feature, per-component-and-feature; raised and lowered) in any order; augmented "
+    "assignments (m.attr *= k, += k) and edit-then-reassign of the array the machine holds; tiny "
+    "drifts of variances and floors (1e-9..1e-4 relative, up to 40 consecutive setter calls); one "
+    "EM step with any update switches on NumPy data or on a Dask array under a random executor "
+    "model; 15..60 EM steps; restart events (deepcopy, pickle round trip, HDF5 save->from_hdf5 "
+    "by path or open file, HDF5 save->load into a machine of another shape) after which the "
+    "restarted object replaces the live one. After every operation: likelihoods and statistics "
+    "on a probe batch equal those of a fresh machine built from the visible parameters (1e-12), "
+    "variances >= floors. Non-trivial = history contains at least one restart or EM step; "
+    "distinct = distinct case digest + event-log digest."
 )
 ASSUMPTIONS = [
     "the fresh machine is built through the public constructor and setters in the order "
